@@ -515,6 +515,54 @@ def c20_driver(ctx):
             bump("c20.validate.corrupt.exit%d" % rc2)
             if said_failed and rc2 == 0:
                 res["oracle_fail"].append(("validate-reports-failure-but-exit0", "set%d %s %s: stdout says failed, exit 0: %s" % (si, ver, comp, so2.strip()[-120:])))
+    # ---- A1b. an archive with many members (more than any internal batch): one member damaged at a time, wherever it sits
+    #           in the file list, makes `mpq validate` and a whole-archive extract exit non-zero
+    bdir = os.path.join(root, "many")
+    os.makedirs(os.path.join(bdir, "in"))
+    nmany = 150 if tier == "quick" else 333
+    addm = []
+    for i in range(1, nmany + 1):
+        f = os.path.join(bdir, "in", "file_%03d.txt" % i)
+        open(f, "w").write("".join("file %d line %d - some compressible payload text\n" % (i, j) for j in range(200)))
+        addm += ["--add", f]
+    archm = os.path.join(bdir, "a.mpq")
+    rc, so, se = run(["mpq", "create", archm, "--compression", "zlib", "--with-listfile"] + addm)
+    res["evals"] += 1
+    if rc == 0:
+        rc, so, se = run(["mpq", "validate", archm])
+        res["evals"] += 1
+        model_reqs.append(("c20exit validate 0 1 %d 0 0" % nmany, str(min(rc, 1))))
+        if rc != 0:
+            res["oracle_fail"].append(("intact-archive-fails-validation", "%d-member archive: validate exit %d" % (nmany, rc)))
+        rawm = open(archm, "rb").read()
+        victims = [1, 10, nmany // 2, nmany - 70, nmany] if tier == "quick" else [1, 2, 10, 63, 64, 65, 128, 129, nmany // 2, nmany - 70, nmany - 1, nmany]
+        for v in victims:
+            vname = "file_%03d.txt" % v
+            rc, so, se = run(["mpq", "info", archm, vname])
+            m = re.search(r"File position: 0x([0-9A-Fa-f]+)", so)
+            if not m:
+                bump("c20.many.position_unknown")
+                continue
+            pos = int(m.group(1), 16)
+            badm = os.path.join(bdir, "bad.mpq")
+            open(badm, "wb").write(rawm[:pos] + b"\xff" * 64 + rawm[pos + 64:])
+            libbad = subprocess.run([wvh, "fsop", "readable", badm, vname], stdout=subprocess.PIPE, text=True).returncode != 0
+            if not libbad:
+                bump("c20.many.damage_ineffective")
+                continue
+            rc, so, se = run(["mpq", "validate", badm])
+            res["evals"] += 1
+            bump("c20.many.validate.victim%s.exit%d" % ("-last-batch" if v > nmany - 64 else "-earlier", min(rc, 1)))
+            model_reqs.append(("c20exit validate 0 1 %d 1 0" % nmany, str(min(rc, 1))))
+            if rc == 0:
+                res["oracle_fail"].append(("unreadable-member-but-validate-exit0", "%d-member archive, %s damaged (library cannot read it): mpq validate exit 0" % (nmany, vname)))
+            outm = os.path.join(bdir, "out-%d" % v)
+            rc, so, se = run(["mpq", "extract", badm, "-o", outm])
+            res["evals"] += 1
+            model_reqs.append(("c20exit extract 0 1 %d 1 0" % nmany, str(min(rc, 1))))
+            if rc == 0:
+                res["oracle_fail"].append(("exit0-but-output-incomplete-or-different", "%d-member archive, %s damaged: whole-archive extract exit 0" % (nmany, vname)))
+            shutil.rmtree(outm, ignore_errors=True)
     # ---- A2. --preserve-paths: nested names are recreated, an entry that cannot be placed inside the output directory is a
     #          failed extraction (non-zero exit unless --skip-errors), and nothing is written outside
     for pi, ver in enumerate(versions if tier != "quick" else ["v1", "v3"]):
@@ -562,7 +610,11 @@ def c20_driver(ctx):
     for kind, cmds in (("dbc", [["dbc", "info"], ["dbc", "list"], ["dbc", "analyze"]]),
                        ("wdt", [["wdt", "info"], ["wdt", "validate"], ["wdt", "tiles"], ["wdt", "tree"]]),
                        ("wdl", [["wdl", "info"], ["wdl", "validate"], ["wdl", "tree"]]),
-                       ("mpq", [["mpq", "info"], ["mpq", "list"], ["mpq", "validate"], ["mpq", "tree"]])):
+                       ("mpq", [["mpq", "info"], ["mpq", "list"], ["mpq", "validate"], ["mpq", "tree"]]),
+                       ("adt", [["adt", "info"], ["adt", "validate"], ["adt", "tree"]]),
+                       ("wmo", [["wmo", "info"], ["wmo", "validate"], ["wmo", "tree"]]),
+                       ("m2", [["m2", "info"], ["m2", "validate"], ["m2", "tree"]]),
+                       ("blp", [["blp", "info"], ["blp", "validate"]])):
         good = os.path.join(root, "good." + kind)
         if kind == "mpq":
             shutil.copy(os.path.join(root, "set0", "t.mpq"), good) if os.path.exists(os.path.join(root, "set0", "t.mpq")) else None
@@ -580,6 +632,13 @@ def c20_driver(ctx):
             for c in cmds:
                 rc, so, se = run(c + [pth])
                 res["evals"] += 1
+                # the global quiet flag changes what is printed, never the verdict
+                if vn != "valid":
+                    for qargs in (["-q"] + c + [pth], c + [pth, "--quiet"]):
+                        rq, _, _ = run(qargs)
+                        res["evals"] += 1
+                        if min(rq, 1) != min(rc, 1):
+                            res["oracle_fail"].append(("quiet-flag-changes-exit-status", "%s on %s input: exit %d without -q, %d with (%s)" % (" ".join(c), vn, rc, rq, " ".join(qargs[:2]))))
                 bump("c20.%s.%s.%s.exit%d" % (kind, c[1], vn, min(rc, 1) if rc >= 0 else 2))
                 model_reqs.append(("c20exit other 0 %d 0 0 0" % (1 if lib else 0), str(min(rc, 1)))) if not (lib and rc != 0) else None
                 if not lib and rc == 0:
